@@ -18,6 +18,9 @@ def main():
         tier = sys.argv[sys.argv.index("--tier") + 1]
         args = [a for a in args if a != tier]
     patch, ids = args[0], args[1:]
+    import fcntl
+    lk = open("/tmp/repo_apply.lock", "w")
+    fcntl.flock(lk, fcntl.LOCK_EX)      # one seeded change in /repo at a time
     st = sh("git -C /repo status --porcelain").stdout.strip()
     if st:
         print("refusing: /repo is not clean:\n" + st)
